@@ -278,10 +278,19 @@ CLAIMS = {
              "Lemmas/DomHeight), "
              "every data edit that succeeds stored data that passed the predicate for the node's kind evaluated "
              "on the OUTCOME of the edit (so sequences arising from combining harmless pieces are refused), a refused edit changes "
-             "nothing. Monitor after every step: to_string() is accepted by from_raw with nothing left and its dump equals the DOM's "
-             "own dump. Tie: status and dump vs the model.",
-        note="Partial proof: the closed form of attribute-value validity and preservation of a global 'printable' invariant "
-             "by every operation are not yet proved (tie + monitor cover them). Known finding factory-panic.",
+             "nothing. THE INVARIANT OVER HISTORIES (Thm/C15Valid: valid_after_any_history, document_stays_valid): after ANY sequence "
+             "of the 25 operations, succeeded or failed, EVERY node of the document tree and of every detached tree holds data and a "
+             "name that passed the library's check for its kind - in closed form: no Text node holds '<' or '&', no comment '--' or a "
+             "trailing '-', no CDATA section ']]>', no PI a target that is not a Name or is xml or data with '?>', every element and "
+             "attribute name is a QName of Namespaces [7]; the text pieces of every attribute value the att_value production accepts "
+             "hold no '<' and no '&' (by inversion of a derivation of the translated production). The hypothesis on the initial "
+             "document (docOK, decidable) is evaluated on every document a history of the run starts from (evidence theorem_reach: "
+             "665/665 on the default seed). Monitor after every step: to_string() is accepted by from_raw with nothing left and its "
+             "dump equals the DOM's own dump. Tie: status and dump vs the model.",
+        note="Partial: the step from 'every node holds validated data' to 'the serialization parses back to the same content' is not a "
+             "theorem for DOM states (the DOM model carries neither namespace declarations nor the DOCTYPE body, and adjacent Text nodes "
+             "print as one run with ']]>' escaped by the printer); for documents it is Thm/C04 print_parse_roundtrip, for DOM states the "
+             "re-parse monitor after every successful call. Known finding factory-panic.",
         technique="Lean 4 proof (partial; grammar-derived validity predicates) + re-parse monitor after every successful call + differential correspondence",
         ref="DESIGN.md section 6 C15"),
 }
